@@ -167,6 +167,7 @@ def oracle(sc, ticks, markers, stats=None):
     qual = [[] for _ in range(n)]          # delivery indices of occurrences recorded while ON/STOPped
     sure = [[] for _ in range(n)]          # those that certainly have not been consumed or dropped
     clears = []                            # ticks at which CLEAR was executed
+    waived = []                            # dispatch ranges in which a decided entry was cancelled by CLEAR
     unbusied = [-1] * n                    # tick of the last ON / RETURN from a frame of the trap / CLEAR
     entries = [[] for _ in range(n)]       # (fmin, tick of first handler line)
     obligations = []                       # (trap, dispatch index) where the statement demands an entry
@@ -297,7 +298,11 @@ def oracle(sc, ticks, markers, stats=None):
             sure = [[] for _ in range(n)]
             clears.append(t)
             unbusied = [t] * n
-            stack = [(fr if fr[0] == 'sub' else fr[:4] + (True,)) for fr in stack]     # handler objects replaced: stale
+            # CLEAR drops the whole GOSUB stack: handlers entered (or decided) before it never return / never start
+            dropped = [min([fr[2]] + list(fr[3].values())) for fr in stack if fr[0] == 'trap']
+            if dropped:
+                waived.append((min(dropped), t))
+            stack = []
         elif tok == 'mR':
             err_active = True
         if error:
@@ -313,7 +318,7 @@ def oracle(sc, ticks, markers, stats=None):
     for x, t in obligations:
         if any(f <= t <= te for f, te in entries[x]):
             continue
-        if waive_from is not None and t >= waive_from:
+        if (waive_from is not None and t >= waive_from) or any(a <= t <= b for a, b in waived):
             note('obligation-waived')
             continue
         if t >= len(ticks):
